@@ -153,8 +153,42 @@ Definition e2 : bool :=
   forallb (fun f => implb (String.eqb (fn_owner f) "OwnedLockCollection" && safe_public f)
                           (negb (fn_returns_shared_child f))) fns.
 
-(* E3: a shared reference is never an OwnedLockable (so new / new_ref accept only inputs that own their locks) *)
-Definition e3 : bool := negb ownedlockable_for_shared_ref.
+(* E3: OwnedLockable (what `new` / `new_ref` and the owned collection demand instead of the duplicate check) is
+   implemented only by the locks themselves and by containers / wrappers / collections all of whose type parameters
+   are OwnedLockable again — never by a shared reference, never by a RefLockCollection *)
+Definition ol_leaf (c : string) : bool := String.eqb c "Mutex" || String.eqb c "RwLock".
+Definition ol_allowed : list string :=
+  ["&mut"; "tuple"; "array"; "Vec"; "Box"; "Mutex"; "RwLock"; "OwnedLockCollection"; "BoxedLockCollection";
+   "RetryingLockCollection"; "Poisonable"].
+Definition e3 : bool :=
+  negb ownedlockable_for_shared_ref &&
+  forallb (fun x : string * bool => str_in (fst x) ol_allowed && (ol_leaf (fst x) || snd x)) ownedlockable_impls.
+
+(* which types (of the unboundedly nested language) rustc considers OwnedLockable, given those impls; TTuple stands
+   for tuples, arrays, Vec and Box<[T]> *)
+Definition has_ol (h : string) : bool := existsb (fun x : string * bool => String.eqb (fst x) h) ownedlockable_impls.
+Definition ol_needs_elem (h : string) : bool :=
+  forallb (fun x : string * bool => implb (String.eqb (fst x) h) (snd x)) ownedlockable_impls.
+Definition seq_heads : list string := ["tuple"; "array"; "Vec"; "Box"].
+
+Fixpoint ol (t : ty) : bool :=
+  match t with
+  | TPay _ _ => false
+  | TRef _ => has_ol "&"
+  | TMutRef t' => has_ol "&mut" && (if ol_needs_elem "&mut" then ol t' else true)
+  | TTuple ts => existsb has_ol seq_heads && (if forallb ol_needs_elem seq_heads then forallb ol ts else true)
+  | TCon c t' => has_ol c && (ol_leaf c || (if ol_needs_elem c then ol t' else true))
+  end.
+
+(* the type owns every lock reachable through it: no shared reference, no RefLockCollection on the way to a lock *)
+Fixpoint owns (t : ty) : bool :=
+  match t with
+  | TPay _ _ => true
+  | TRef _ => false
+  | TMutRef t' => owns t'
+  | TTuple ts => forallb owns ts
+  | TCon c t' => ol_leaf c || (negb (String.eqb c "RefLockCollection") && owns t')
+  end.
 
 (* E4: the argument of a scoped closure cannot outlive the call (its lifetime is not the caller-chosen lifetime
    of `&self`) *)
